@@ -183,7 +183,7 @@ CLAIMS = {
  },
  "C06": {
   "design_ref": "DESIGN.md 4 C06",
-  "text": "Bounded model checking of the real qmail-remote.c blast(): for EVERY message of up to N bytes (N=6 quick, 8 thorough; all "
+  "text": "Bounded model checking of the real qmail-remote.c blast(): for EVERY message of up to N bytes (N=4,5 quick, 5..7 thorough; all "
           "256 byte values, EOF and one read error at any position) the DATA payload contains CRLF.CRLF exactly once at its very end, "
           "no bare LF, and a reference RFC 5321 receiver decodes it back to the message (byte-identical for CR-free messages); aborted "
           "transfers never contain the terminator. Decided by SAT, not sampled; longer messages are outside the claim.",
